@@ -116,7 +116,7 @@ func apply(rt *rapid.T, kind string, version int64, h []hop) buildResult {
 		var err error
 		if o.Kind == "ins" {
 			v, _ := hex.DecodeString(o.Val)
-			_, err = mpt.Insert(util.Path(o.Path), mptkit.Val(v))
+			_, err = mptkit.InsertReused(mpt, o.Path, v)
 		} else if i%3 == 1 {
 			// a removal may also be spelled as storing an empty (non-nil) value
 			_, err = mpt.Insert(util.Path(o.Path), mptkit.Val([]byte{}))
